@@ -1,0 +1,48 @@
+//go:build verif
+
+package piecefunc
+
+// Machine-checked contracts for /verif (read as text by the VC generator; no code).
+//
+//@ const D = 1000000
+//@ const MV = 18446744073708
+//@ const U64 = 18446744073709551615
+//@
+//@ spec validDots(d []Dot) bool = len(d) >= 2 && forall(i, 0, len(d), d[i].X <= MV && d[i].Y <= MV) && forall(i, 0, len(d), forall(j, i+1, len(d), d[i].X < d[j].X))
+//@
+//@ spec opaque between(r int, y0 int, y1 int, a int, b int) bool = r <= max(y0, y1) && r + 1 >= min(y0, y1) && abs(b*D*r - (b*D*y0 + D*(y1-y0)*a)) <= b*abs(y1-y0) + 2*b*D
+//@
+//@ lemma interp_bound(y0 int, y1 int, a int, b int, ratio int, m0 int, m1 int) { unfold between(m0 + m1, y0, y1, a, b) }
+//@   requires 0 <= y0 && y0 <= MV && 0 <= y1 && y1 <= MV && 0 <= a && a <= b && b > 0 && b <= MV
+//@   requires ratio == a*D/b && m0 == y0*(D-ratio)/D && m1 == y1*ratio/D
+//@   ensures  0 <= ratio && ratio <= D
+//@   ensures  between(m0 + m1, y0, y1, a, b)
+//@   ensures  a == 0 ==> m0 + m1 == y0
+//@   ensures  a == b ==> m0 + m1 == y1
+//@
+//@ func NewFunc
+//@   panics   !validDots(dots)
+//@   ensures  closureof(result, "(Func).Get$bound") && captured(result, "(Func).Get$bound", 0, Func).dots == dots
+//@   loop 1 invariant 0 <= _k && _k <= len(dots) && len(dots) >= 2
+//@   loop 1 invariant forall(i, 0, _k, dots[i].X <= MV && dots[i].Y <= MV)
+//@   loop 1 invariant forall(i, 0, _k, forall(j, i+1, _k, dots[i].X < dots[j].X))
+//@   loop 1 invariant _k >= 1 ==> prevX == dots[_k-1].X
+//@
+//@ func Mul
+//@   requires a*b <= U64
+//@   ensures  result == a*b/D
+//@ func Div
+//@   requires b > 0 && a*D <= U64
+//@   ensures  result == a*D/b
+//@
+//@ func (Func).Get
+//@   requires validDots(f.dots)
+//@   ensures  [before] x < f.dots[0].X ==> result == f.dots[0].Y
+//@   ensures  [after] x > f.dots[len(f.dots)-1].X ==> result == f.dots[len(f.dots)-1].Y
+//@   ensures  [atdot] forall(i, 0, len(f.dots), x == f.dots[i].X ==> result == f.dots[i].Y)
+//@   ensures  [inside] forall(i, 0, len(f.dots)-1, f.dots[i].X < x && x < f.dots[i+1].X ==> between(result, f.dots[i].Y, f.dots[i+1].Y, x - f.dots[i].X, f.dots[i+1].X - f.dots[i].X))
+//@   loop 1 invariant 0 <= _k && _k <= len(f.dots)
+//@   loop 1 invariant forall(j, 1, min(_k, len(f.dots)-1), f.dots[j].X <= x)
+//@   hint assert 0 <= p0 && p0 + 1 < len(f.dots) && f.dots[p0].X <= x && x <= f.dots[p0+1].X
+//@   hint assert forall(i, 0, len(f.dots)-1, f.dots[i].X < x && x < f.dots[i+1].X ==> i == p0)
+//@   hint use interp_bound(y0, y1, x-x0, x1-x0, ratio, y0*(D-ratio)/D, y1*ratio/D)
